@@ -34,6 +34,9 @@ typedef struct {
 	uint64_t obs;         /* hash of everything observable */
 } run_t;
 
+/* a caller may also stop asking as soon as it has received the declared number of bytes (no trailing read that returns 0) */
+static int STOP_AT_DECLARED;
+
 /* one run: schedule = list of sizes used cyclically; monitor attached after 'attach' reads (-1: never) */
 static void run_schedule(const char *method, const uint8_t *in, size_t n, size_t declared,
                          const size_t *sched, int nsched, int attach, int poison, run_t *r)
@@ -63,6 +66,7 @@ static void run_schedule(const char *method, const uint8_t *in, size_t n, size_t
 		if (got == 0 && ask > 0) break;
 		if (got == 0) { if (++zero_streak > nsched) break; } else zero_streak = 0;
 		if (total > declared) break;
+		if (STOP_AT_DECLARED && total == declared) break;
 		if (reads > 4000000) break;
 	}
 	if (attach >= reads) lha_decoder_monitor(d, mon_cb, &MON);     /* attach after the last read */
@@ -165,6 +169,12 @@ static void explore_stream(const char *method, const stream_t *st, int depth, in
 					if (!vf_case("%s %s declared=%zu composition=%s attach=%d", method, st->what, declared, sched_str(sc, ns), attach)) continue;
 					run_schedule(method, st->s, st->n, declared, sc, ns, attach, 0, &r);
 					check_run(method, st, declared, &base, &r, sched_str(sc, ns), attach);
+					if (attach >= 0 && attach < ns && base.len == declared && declared > 0) {
+						STOP_AT_DECLARED = 1;
+						run_schedule(method, st->s, st->n, declared, sc, ns, attach, 0, &r);
+						STOP_AT_DECLARED = 0;
+						check_run(method, st, declared, &base, &r, "(the same, caller stops at the declared length)", attach);
+					}
 					vf_outcome(vf_mix(r.obs, r.mon.calls));
 					if (L > 1) vf_nontrivial(vf_mix(vf_hash(st->s, st->n, declared), ((uint64_t) mask << 8) | (z << 7) | (attach + 1)));
 				}
@@ -187,6 +197,12 @@ static void explore_stream(const char *method, const stream_t *st, int depth, in
 							if (!vf_case("%s %s declared=%zu sched=%s attach=%d", method, st->what, declared, sched_str(sc, len), attaches[attach])) continue;
 							run_schedule(method, st->s, st->n, declared, sc, len, attaches[attach], 0, &r);
 							check_run(method, st, declared, &base, &r, sched_str(sc, len), attaches[attach]);
+							if (attach > 0 && attach < 4 && base.len == declared) {
+								STOP_AT_DECLARED = 1;
+								run_schedule(method, st->s, st->n, declared, sc, len, attaches[attach], 0, &r);
+								STOP_AT_DECLARED = 0;
+								check_run(method, st, declared, &base, &r, "(the same, caller stops at the declared length)", attaches[attach]);
+							}
 							vf_outcome(vf_mix(r.obs, r.mon.calls));
 							vf_nontrivial(vf_mix(vf_hash(st->s, st->n, declared), vf_hash(sc, sizeof(size_t) * len, attach)));
 						}
